@@ -4,6 +4,7 @@
     clock pinned (checks/c07.py); the model side of the stored data is C01 / C05's stored-code prediction. *)
 From Coq Require Import ZArith List Lia Bool.
 From SF Require Import Stream StreamProofs Peak PeakProofs.
+From SF Require Dpcm DpcmProofs.
 Import ListNotations.
 Local Open Scope Z_scope.
 
@@ -24,5 +25,11 @@ Proof. intros. symmetry. apply map_app. Qed.
 Theorem peak_independent_of_partition : forall chunks p base, run p base chunks = spec p base (concat chunks).
 Proof. exact peak_partition_independent. Qed.
 
+(** the DPCM writer of src/xi.c carries its predictor from call to call: the stored codes of any partition are those of one call *)
+Theorem dpcm_writer_output_independent_of_partition : forall calls1 calls2 l, concat calls1 = concat calls2 ->
+  Dpcm.run_calls Dpcm.s2dles l calls1 = Dpcm.run_calls Dpcm.s2dles l calls2.
+Proof. intros calls1 calls2 l E. rewrite !DpcmProofs.s2dles_calls, E. reflexivity. Qed.
+
 Print Assumptions block_writer_output_independent_of_partition.
 Print Assumptions peak_independent_of_partition.
+Print Assumptions dpcm_writer_output_independent_of_partition.
